@@ -99,6 +99,13 @@ var Globals = map[string]func() []interface{}{}
 // Names maps a package path to the names of those variables (same order).
 var Names = map[string][]string{}
 
+// SyncPkgs lists the packages that import sync or sync/atomic (their shared state may be properly synchronised,
+// so the write-footprint rules do not apply to them and preemption is restricted to API boundaries).
+var SyncPkgs = map[string]bool{}
+
+// RegisterSync is called from the init function of such a package.
+func RegisterSync(pkg string) { SyncPkgs[pkg] = true }
+
 // Register is called from the init function of every instrumented package.
 func Register(pkg string, names []string, f func() []interface{}) { Globals[pkg] = f; Names[pkg] = names }
 `
@@ -122,6 +129,7 @@ func instrumentPackage(src, dst, modPath, dir string, files []string) {
 	var parsed []*ast.File
 	globals := map[string]bool{}
 	pkgName := ""
+	usesSync := false
 	for _, f := range files {
 		af, err := parser.ParseFile(fset, filepath.Join(src, f), nil, parser.ParseComments)
 		if err != nil {
@@ -129,6 +137,11 @@ func instrumentPackage(src, dst, modPath, dir string, files []string) {
 		}
 		parsed = append(parsed, af)
 		pkgName = af.Name.Name
+		for _, im := range af.Imports {
+			if im.Path.Value == `"sync"` || im.Path.Value == `"sync/atomic"` {
+				usesSync = true
+			}
+		}
 		for _, d := range af.Decls {
 			if gd, ok := d.(*ast.GenDecl); ok && gd.Tok == token.VAR {
 				for _, sp := range gd.Specs {
@@ -254,7 +267,11 @@ func instrumentPackage(src, dst, modPath, dir string, files []string) {
 		}
 		sb.WriteString("&" + n)
 	}
-	sb.WriteString("}\n\t})\n}\n")
+	sb.WriteString("}\n\t})\n")
+	if usesSync {
+		fmt.Fprintf(&sb, "\tverifrt.RegisterSync(%q)\n", pkgPath)
+	}
+	sb.WriteString("}\n")
 	if err := os.WriteFile(filepath.Join(dst, dir, "verif_globals.go"), []byte(sb.String()), 0o644); err != nil {
 		fatal(err)
 	}
